@@ -483,6 +483,157 @@ def full_table(ctx, n, limit_extra):
     b._ref = {1: 0}
 
 
+def full_table_ops(ctx, n, op, extra):
+    """other operations that run into `max_nodes`: reordering (explicit order, sifting,
+    a single swap, dynamic reordering inside an operation), substitution, quantification,
+    loading a pickle / JSON dump into the full manager.  After the `RuntimeError` the tables
+    are consistent, the order is a bijection, every held reference denotes the function it
+    denoted, and the manager works again once the limit is raised.  Implementation and
+    oracle only (see `full_table`)."""
+    import dd.bdd as _ddb
+    import os
+    import tempfile
+    import dd.autoref as _aut
+    rng = ctx.rng
+    A = None
+    if op == 'load-json':
+        # (JSON is read and written through the dd.autoref wrapper)
+        A = _aut.BDD()
+        b = A._bdd
+    else:
+        b = _ddb.BDD()
+    names = [vname(i) for i in range(n)]
+    b.declare(*names)
+
+    def build(t):
+        u = b.false
+        for k in range(1 << n):
+            if (t >> k) & 1:
+                u = b.apply('or', u, b.cube({names[j]: bool(T.getbit(k, j, n)) for j in range(n)}))
+        return u
+    held = {}
+    for _ in range(rng.choice([1, 2, 3])):
+        u = build(rng.getrandbits(1 << n))
+        if abs(u) != 1:
+            b.incref(u)
+            held[u] = held.get(u, 0) + 1
+    if not held:
+        ctx.count('full-table-ops:trivial')
+        return
+    path = None
+    if op in ('load-pickle', 'load-json'):
+        # a dump of other functions of the same variables, made by a second manager
+        C = _aut.BDD() if op == 'load-json' else None
+        c = C._bdd if C is not None else _ddb.BDD()
+        c.declare(*names)
+        rs = []
+        for _ in range(2):
+            t = rng.getrandbits(1 << n)
+            u = c.false
+            for k in range(1 << n):
+                if (t >> k) & 1:
+                    u = c.apply('or', u, c.cube({names[j]: bool(T.getbit(k, j, n)) for j in range(n)}))
+            c.incref(u)
+            rs.append(u)
+        fd, path = tempfile.mkstemp(prefix='ddverif', suffix='.p' if op == 'load-pickle' else '.json')
+        os.close(fd)
+        if op == 'load-pickle':
+            c.dump(path, roots=rs)
+        else:
+            fs = [C._wrap(u) for u in rs]
+            C.dump(path, roots=fs)
+            del fs
+        for u in rs:
+            c.decref(u)
+        c.collect_garbage()
+    if rng.random() < 0.7:
+        b.collect_garbage()
+    tts = {u: (oracle.tt_fast(b, u, names)) for u in held}
+    b.max_nodes = max(max(b._succ) + 1, len(b) + 1) + extra if rng.random() < 0.5 else len(b) + 1 + extra
+    case = dict(stream=f'full table ops n={n} op={op} extra={extra}', max_nodes=b.max_nodes,
+                order=dict(b.vars), held={str(u): hex(t) for u, t in tts.items()})
+    failed = False
+    try:
+        if op == 'reorder':
+            perm = names[:]
+            rng.shuffle(perm)
+            case['target'] = perm
+            _ddb.reorder(b, {v: i for i, v in enumerate(perm)})
+        elif op == 'sift':
+            _ddb.reorder(b)
+        elif op == 'swap':
+            x = rng.randrange(n - 1)
+            case['swap'] = x
+            b.swap(x, x + 1)
+        elif op == 'dynamic':
+            b.configure(reordering=True)
+            b._last_len = 1
+            hs = list(held)
+            for _ in range(6):
+                # (operands are held references: a reordering collects everything else)
+                b.apply(rng.choice(['xor', 'and', 'or', '=>']), rng.choice(hs), -rng.choice(hs))
+                b.ite(rng.choice(hs), -rng.choice(hs), rng.choice(hs))
+        elif op == 'let':
+            for _ in range(6):
+                u = rng.choice(list(held))
+                g = rng.choice(list(held))
+                b.let({rng.choice(names): g}, u)
+        elif op == 'quantify':
+            for _ in range(6):
+                u = rng.choice(list(held))
+                b.exist(set(rng.sample(names, rng.randrange(1, n))), build(rng.getrandbits(1 << n)) if rng.random() < 0.5 else u)
+        elif op == 'load-pickle':
+            b.load(path)
+        else:
+            loaded = A.load(path)
+            del loaded
+    except RuntimeError:
+        failed = True
+    finally:
+        b.configure(reordering=False)
+    ctx.case(('full-table-ops', n, op, failed), True)
+    ctx.count(f'full-table-ops:{op}' + (':reached' if failed else ''))
+    ext = {1: 1}
+    for u, c_ in held.items():
+        ext[abs(u)] = ext.get(abs(u), 0) + c_
+    if not failed and op in ('load-pickle', 'load-json'):
+        # the loaded roots are held by the manager's own `roots`/references; release them
+        b.max_nodes = 10 ** 9
+    try:
+        if failed:
+            names_now = names
+            bad = oracle.check_table(b, external=ext)
+            if bad:
+                ctx.violation('C17:full-table', f'after RuntimeError(full) in {op} the manager is inconsistent: {bad[:3]}', case)
+                return
+            for u, t in tts.items():
+                if oracle.tt_fast(b, u, names_now) != t:
+                    ctx.violation('C17:reference-changed', f'held reference {u} changed after RuntimeError(full) in {op}', case)
+                    return
+        b.max_nodes = 10 ** 9
+        t = rng.getrandbits(1 << n)
+        u = build(t)
+        if oracle.tt_fast(b, u, names) != t:
+            ctx.violation('C17:later-call', f'a function built after the limit was raised is wrong ({op})', case)
+        for u, t in tts.items():
+            if oracle.tt_fast(b, u, names) != t:
+                ctx.violation('C17:reference-changed', f'held reference {u} changed ({op}, failed={failed})', case)
+                return
+        _ddb.reorder(b)
+        for u, t in tts.items():
+            if oracle.tt_fast(b, u, names) != t:
+                ctx.violation('C17:reference-changed', f'held reference {u} changed by a later reordering ({op})', case)
+                return
+    except Exception as e:  # noqa: B902
+        ctx.violation('C17:later-call', f'work after RuntimeError(full) in {op} raised {type(e).__name__}: {e}'[:200], case)
+    finally:
+        if path and os.path.exists(path):
+            os.unlink(path)
+        # (the shutdown assertion of dd wants zero counts)
+        b._succ = {1: b._succ[1]}
+        b._ref = {1: 0}
+
+
 def autoref_foreign(ctx, n):
     """calls of dd.autoref that are handed a Function of ANOTHER manager (or a non-Function):
     each wrapper must refuse (an exception), and neither manager may change: same tables,
@@ -584,6 +735,11 @@ def run(ctx):
     for n in (2, 3, 4):
         for extra in ((1, 3) if q else (1, 2, 3, 5, 8, 13)):
             full_table(ctx, n, extra)
+    for op in ('reorder', 'sift', 'swap', 'dynamic', 'let', 'quantify', 'load-pickle', 'load-json'):
+        for n in (3, 4):
+            for extra in ((0, 1, 2, 4) if q else (0, 1, 2, 3, 4, 6, 9)):
+                for _ in range(1 if q else 4):
+                    full_table_ops(ctx, n, op, extra)
     for n in (2, 3, 4):
         for kind in ('undeclared', 'syntax'):
             for _ in range(2 if q else 12):
